@@ -110,6 +110,44 @@ func mirrorCompare(c *mirrorCase, runes []rune, start int) (detail, fwd, rev, in
 	return "", fwd, rev, ""
 }
 
+// mirrorChain compares the FindRunesMatch / FindNextMatch chains of the two
+// images (whole-match positions and all captures, match by match).
+func mirrorChain(c *mirrorCase, runes []rune) (detail, incon string, n int) {
+	chainOf := func(re *regexp2.Regexp, text []rune, mirrored bool) ([]string, string) {
+		var out []string
+		m, err := re.FindRunesMatch(text)
+		for m != nil && err == nil {
+			out = append(out, obsByName(m, c.groupNames, len(text), mirrored))
+			if len(out) > len(text)+2 {
+				return out, "runaway"
+			}
+			m, err = re.FindNextMatch(m)
+		}
+		if err != nil {
+			if mon.ResourceErr(err) {
+				return nil, "chain-" + mon.ErrClass(err)
+			}
+			return append(out, "error: "+err.Error()), ""
+		}
+		return out, ""
+	}
+	f, fi := chainOf(c.fre, runes, false)
+	if fi == "runaway" {
+		return fmt.Sprintf("%q on %q: the FindNextMatch chain does not end", c.fwd.Src, string(runes)), "", 0
+	}
+	r, ri := chainOf(c.rre, gen.ReverseRunes(runes), true)
+	if ri == "runaway" {
+		return fmt.Sprintf("%q (RightToLeft) on %q: the FindNextMatch chain does not end", c.rev.Src, string(gen.ReverseRunes(runes))), "", 0
+	}
+	if fi != "" || ri != "" {
+		return "", fi + ri, 0
+	}
+	if strings.Join(f, " | ") != strings.Join(r, " | ") {
+		return fmt.Sprintf("FindNextMatch chains differ: %q on %q gives [%s]; its mirror image %q (RightToLeft) on the reversed text gives, mapped back, [%s]", c.fwd.Src, string(runes), strings.Join(f, " | "), c.rev.Src, strings.Join(r, " | ")), "", len(f)
+	}
+	return "", "", len(f)
+}
+
 func mirrorWitness(c *mirrorCase, runes []rune, start int) core.Witness {
 	ast, _ := json.Marshal(c.fwd.AST)
 	w := core.Witness{Kind: "mirror", Pattern: c.fwd.Src, AST: ast, Options: c.opts, Start: start, Input: string(runes)}
@@ -135,6 +173,18 @@ func mirrorExplainedByNonBoundaryAtomic(c *mirrorCase, runes []rune, start int, 
 	return obsByName(m, c.groupNames, len(runes), false) == rev
 }
 
+func mirrorChainExplainedByK1(c *mirrorCase, runes []rune) bool {
+	re, err := mon.CompileGated(syntax.VerifRewriteNonBoundaryAtomic, c.fwd.Src, c.opts, 0)
+	if err != nil {
+		return false
+	}
+	re.MatchTimeout = shortTimeout
+	g := *c
+	g.fre = re
+	d, incon, _ := mirrorChain(&g, runes)
+	return d == "" && incon == ""
+}
+
 func replayMirror(w core.Witness) string {
 	var ast gen.Node
 	if err := json.Unmarshal(w.AST, &ast); err != nil {
@@ -150,6 +200,10 @@ func replayMirror(w core.Witness) string {
 	runes := make([]rune, len(w.InputRune))
 	for i, r := range w.InputRune {
 		runes[i] = rune(r)
+	}
+	if v, _ := w.Args["chain"].(bool); v {
+		d, _, _ := mirrorChain(c, runes)
+		return d
 	}
 	d, _, _, _ := mirrorCompare(c, runes, w.Start)
 	return d
@@ -284,6 +338,25 @@ func runMirror(r *core.Run) {
 			}
 			if hit {
 				nontriv++
+				// the match chains of the two images (empty-match stepping, \G-free bump-along)
+				d, incon, n := mirrorChain(c, runes)
+				l.Eval(1)
+				l.Count("mirror_chains", 1)
+				l.Count("mirror_chain_matches", int64(n))
+				if incon != "" {
+					l.Inconclusive(incon)
+				} else if d != "" {
+					if k := r.KnownClass("nonboundary-auto-atomic"); k != nil && mirrorChainExplainedByK1(c, runes) {
+						r.KnownHit(k.ID)
+						continue
+					}
+					w := mirrorWitness(c, runes, 0)
+					w.Args["chain"] = true
+					w.Args["origin"] = origin
+					l.Violate(core.Violation{Kind: "mirror-image-chain-mismatch", Detail: d, Witness: w})
+					l.NontrivialN(nontriv)
+					return
+				}
 			}
 		}
 		l.NontrivialN(nontriv)
